@@ -12,13 +12,13 @@ C15 -- calibration is applied on every read and never touches the stored values.
      (ascending coefficients) is applied iff there are coefficients
  R6  the calibration attributes are read from storage on every read (no per-handle memory), shared with C02.R7
 """
-from .common import Ctx, surface, api_key, describe_path
+from .common import io_names, Ctx, surface, api_key, describe_path
 from nixsa.values import show, is_const, subterms, params_of
 from nixsa.px_core import Budget
 from . import stateless
 
 READ_MEMBERS = [("DataArray", "__getitem__"), ("DataArray", "read_direct"), ("DataArray", "__iter__"),
-                ("DataArray", "__array__"), ("DataView", "__getitem__"), ("DataView", "read_direct"), ("DataView", "_read_data"),
+                ("DataArray", "__array__"), ("DataView", "__getitem__"), ("DataView", "read_direct"), ("DataView", None),
                 ("DataView", "__iter__")]
 
 
@@ -61,13 +61,14 @@ def raw_value_access_rule(cg, rep, R):
 def view_transform(c):
     """DataView's index transformation: by name, else the private helper both DataView._read_data and _write_data call"""
     from .common import private_helper
-    return private_helper(c, "DataView", "_transform_coordinates", [("DataView", "_read_data", "methods"), ("DataView", "_write_data", "methods")],
+    return private_helper(c, "DataView", "_transform_coordinates", [("DataView", io_names(c)[0], "methods"), ("DataView", io_names(c)[1], "methods")],
                           pick=lambda h: h.cls is not None and h.cls.name == "DataView")
 
 
 def run(M, rep, tier, only=None):
     ctx = Ctx(M, coarse=False)
     ctx.cfg.compose = False
+    RD, WR = io_names(ctx)
     R1 = rep.rule("C15.R1", "every read of an array's data passes the calibrating override", floor=6,
                   technique="stack of every data-read event on all abstract paths of the read members; who-may-read over the call graph")
     R2 = rep.rule("C15.R2", "calibration never writes storage; calibration setters never touch the data", floor=3,
@@ -88,6 +89,7 @@ def run(M, rep, tier, only=None):
     if tc is not None:
         rctx.cfg.opaque[tc.qual] = ("py", "tuple")      # the index transformation (C06.R2) reads no data
     for cn, name in READ_MEMBERS:
+        name = name or RD
         f = ctx.member(cn, name)
         if f is None:
             if name in ("__array__", "get_slice", "__iter__", "read_direct"):
@@ -105,7 +107,7 @@ def run(M, rep, tier, only=None):
             for e in p.events:
                 if is_data_read(e):
                     nread += 1
-                    if not any(q.endswith("DataArray._read_data") for q in e.stack):
+                    if not any(q.endswith("DataArray." + RD) for q in e.stack):
                         bad = (p, e)
         rep.check(R1, key, bad is None and nread > 0, "%s reads the stored values without going through DataArray._read_data: "
                   "calibration is not applied on this read path" % key if bad else "%s never reads the data" % key,
@@ -113,7 +115,7 @@ def run(M, rep, tier, only=None):
                   what="%d data reads, all inside DataArray._read_data" % nread)
     # who else reads a dataset called "data" of an array group
     cg = Ctx(M).cg
-    allowed = {"DataSet._read_data", "DataArray._read_data", "H5Group.get_data", "H5DataSet.read_data"}
+    allowed = {"DataSet." + RD, "DataArray." + RD, "H5Group.get_data", "H5DataSet.read_data"}
     for q, ops in sorted(cg.ops.items()):
         short = q.split(":")[-1]
         if q.startswith("nixio.cmd.") or short.split(".")[0] in ("DataFrame", "H5Group", "H5DataSet", "Property"):
@@ -126,7 +128,7 @@ def run(M, rep, tier, only=None):
     raw_value_access_rule(cg, rep, R1)
 
     # ---------------------------------------------------------------- R2..R5 on DataArray._read_data
-    f = ctx.member("DataArray", "_read_data")
+    f = ctx.member("DataArray", RD)
     if f is None:
         rep.bad(R4, "DataArray._read_data", "required mechanism not found")
         return
